@@ -56,6 +56,8 @@ def ty_src(t):
         return f"dict[{ty_src(t[1])}, {ty_src(t[2])}]"
     if k == "pyopt":
         return f"Optional[{ty_src(t[1])}]"
+    if k == "pymod":            # attribute access on an imported module: `datetime.datetime`
+        return t[1]
     raise ValueError(k)
 
 
@@ -112,6 +114,9 @@ def valid_src(t, mod):
         return repr(t[1][0])
     if k == "Ref":
         return f"_mk_{t[1]}()"
+    if k == "pymod":
+        return {"datetime.datetime": "datetime.datetime(2020, 1, 2, 3, 4, 5)", "datetime.date": "datetime.date(2020, 1, 2)",
+                "decimal.Decimal": "decimal.Decimal('1.5')"}.get(t[1])
     return None
 
 
@@ -137,7 +142,9 @@ def render_module(spec):
            "                     Constant, Partial, Omit, Pick, Extend, AllFieldsRequired)", ""]
     for it in spec["items"]:
         k = it["kind"]
-        if k == "const":
+        if k == "import":
+            out += [f"import {it['module']}", ""]
+        elif k == "const":
             ann = f": {it['ann']}" if it.get("ann") else ""
             out += [f"{it['name']}{ann} = {it['src']}", ""]
         elif k == "enum":
@@ -180,6 +187,10 @@ def render_module(spec):
                 body.append(f"    _optional = {it['optional']!r}")
             if it.get("addl") is not None:
                 body.append(f"    _additional_properties = {it['addl']!r}")
+            if it.get("ignore_none"):
+                body.append("    _ignore_none = True")
+            if it.get("immutable_flag"):
+                body.append("    _immutable = True")
             ci = it.get("custom_init")
             if ci:
                 ps = ", ".join(["self"] + [p if d is None else f"{p}={d}" for p, d in ci["params"]]
@@ -204,6 +215,7 @@ class ModGen:
         self.rng = rng
         self.tier = tier
         self.py_ok = True       # python builtins / PEP-585 generics are only legal in annotations
+        self.mods = []          # modules imported as `import m` (attribute-access types become available)
         self.enums = []
         self.structs = {}        # name -> info {fields: {name: finfo}, required: set, custom_init, immutable}
 
@@ -216,6 +228,9 @@ class ModGen:
         refs = [n for n, s in self.structs.items() if not s["hidden"]]
         if refs and r.random() < 0.12:
             return ["Ref", r.choice(refs)]
+        if self.py_ok and "datetime" in self.mods and r.random() < 0.12:
+            # (`decimal.Decimal` annotations are silently not fields: typedpy has no wrapper for them)
+            return ["pymod", r.choice(["datetime.datetime", "datetime.date"])]
         if self.py_ok and r.random() < 0.15:
             return ["py", r.choice(PY_SCALARS)]
         return [r.choice(SCALARS)]
@@ -284,7 +299,8 @@ class ModGen:
                 f["default"] = d
         return f
 
-    def struct(self, name, nested_ok):
+    def struct(self, name, nested_ok, force_base=None, no_flags=False, all_flags=False):
+        """force_base / no_flags / all_flags build chains in which the class-level flags are set on a base only"""
         r = self.rng
         it = {"kind": "struct", "name": name, "style": "annot" if r.random() < 0.8 else "assign"}
         self.py_ok = it["style"] == "annot"
@@ -296,7 +312,11 @@ class ModGen:
 
         def anc(n):
             return self.structs[n]["ancestry"]
-        if cands and x < 0.45:
+        if force_base is not None and force_base in cands:
+            bases.append({"b": "cls", "name": force_base})
+        elif all_flags:
+            pass
+        elif cands and x < 0.45:
             nb = 2 if (len(cands) > 1 and r.random() < 0.25) else 1
             for b in r.sample(cands, nb):
                 if anc(b) & used:
@@ -345,7 +365,7 @@ class ModGen:
         names = r.sample(pool, min(nf, len(pool)))
         # occasionally override an inherited field (same requiredness, or as a constant)
         override = None
-        if inherited and r.random() < 0.15:
+        if inherited and not no_flags and r.random() < 0.15:
             override = r.choice(sorted(inherited))
         fields = [self.field(n, it["style"], nested_ok) for n in names]
         if override:
@@ -364,7 +384,11 @@ class ModGen:
         typing_opt = [f["name"] for f in fields if f.get("const") is None and f["ty"][0] == "pyopt"]
         forced_opt = [f.pop("_force_optional") and f["name"] for f in fields if f.get("_force_optional")]
         x = r.random()
-        if x < 0.3 or forced_opt:
+        if all_flags:
+            x = 0.0
+        if no_flags:
+            pass
+        elif x < 0.3 or forced_opt:
             # explicit _required: any own non-constant non-typing-optional names (+ sometimes inherited optional ones)
             cand = [f["name"] for f in fields if f["name"] not in typing_opt and f["name"] not in forced_opt]
             req = [n for n in cand if r.random() < 0.55]
@@ -388,8 +412,17 @@ class ModGen:
                     it["required"].append(override)
                 if it.get("optional") is not None:
                     it["optional"] = [n for n in it["optional"] if n != override] or None
-        if r.random() < 0.35:
+        if all_flags:
             it["addl"] = r.random() < 0.5
+            it["ignore_none"] = r.random() < 0.6
+            it["immutable_flag"] = r.random() < 0.5
+        elif not no_flags:
+            if r.random() < 0.35:
+                it["addl"] = r.random() < 0.5
+            if r.random() < 0.12:
+                it["ignore_none"] = True
+            if r.random() < 0.08:
+                it["immutable_flag"] = True
         if r.random() < 0.15:
             it["method"] = True
         # effective requiredness (mirror of the documented rules; only to keep later classes definable)
@@ -408,7 +441,7 @@ class ModGen:
             if n in allf and n not in own_names:
                 allf[n]["req"] = True
         custom = False
-        if bases == [{"b": "Structure"}] and fields and r.random() < 0.12:
+        if bases == [{"b": "Structure"}] and fields and not all_flags and r.random() < 0.12:
             reqs = [n for n in own_names if allf[n]["req"]]
             opts = [n for n in own_names if not allf[n]["req"] and not allf[n]["const"]]
             params = [[n, None] for n in reqs] + [[n, "None"] for n in opts]
@@ -427,6 +460,10 @@ class ModGen:
     def module(self, idx):
         r = self.rng
         items = []
+        for m in ("datetime", "decimal"):
+            if r.random() < 0.15:
+                items.append({"kind": "import", "module": m})
+                self.mods.append(m)
         if r.random() < 0.7:
             items.append({"kind": "const", "name": "LIMIT", "src": str(r.randint(1, 99))})
         if r.random() < 0.4:
@@ -446,8 +483,14 @@ class ModGen:
                           "fields": [["x", "int", None], ["y", "str", "'a'"]][: r.randint(1, 2)]})
         ns = r.randint(2, 5 if self.tier == "quick" else 7)
         nested_mod = r.random() < 0.07
+        chain = r.randint(1, 3) if r.random() < 0.3 else 0    # S0 carries the flags, S1..S<chain> restate nothing
         for s in range(ns):
-            items.append(self.struct(f"S{s}", nested_mod))
+            if chain and s == 0:
+                items.append(self.struct("S0", nested_mod, all_flags=True))
+            elif chain and s <= chain:
+                items.append(self.struct(f"S{s}", nested_mod, force_base=f"S{s - 1}", no_flags=True))
+            else:
+                items.append(self.struct(f"S{s}", nested_mod))
             if r.random() < 0.15:
                 items.append({"kind": "func", "name": f"fn{s}",
                               "params": [["p", "int", None], ["q", "str", "'z'"]][: r.randint(0, 2)],
@@ -478,6 +521,15 @@ CORPUS = [
          "fields": [{"name": "a", "ty": ["String"]}]},
         {"kind": "struct", "name": "Q", "style": "annot", "bases": [{"b": "cls", "name": "P"}],
          "fields": [{"name": "b", "ty": ["String"]}]}]}},
+    {"suite": "stub", "apd": True, "dflt": True, "seeds": [], "mod": {"items": [
+        {"kind": "struct", "name": "P", "style": "annot", "bases": [{"b": "Structure"}], "addl": False,
+         "fields": [{"name": "a", "ty": ["String"]}]},
+        {"kind": "struct", "name": "Q", "style": "annot", "bases": [{"b": "cls", "name": "P"}],
+         "fields": [{"name": "b", "ty": ["String"]}]}]}},
+    {"suite": "stub", "apd": True, "dflt": True, "seeds": [], "mod": {"items": [
+        {"kind": "import", "module": "datetime"},
+        {"kind": "struct", "name": "W", "style": "annot", "bases": [{"b": "Structure"}],
+         "fields": [{"name": "when", "ty": ["pymod", "datetime.datetime"]}, {"name": "s", "ty": ["String"]}]}]}},
     {"suite": "stub", "apd": True, "dflt": True, "seeds": [], "mod": {"items": [
         {"kind": "struct", "name": "N", "style": "annot", "bases": [{"b": "Structure"}],
          "fields": [{"name": "m", "ty": ["Map", ["String"], ["AnyOf", ["Integer"], ["None"]]]}]}]}},
@@ -921,6 +973,12 @@ def tags(case, impl, model):
             if it.get("optional") is not None:
                 out.append("struct:_optional")
             out.append("struct:addl=" + str(it.get("addl")))
+            if it.get("ignore_none"):
+                out.append("struct:_ignore_none")
+            if it.get("immutable_flag"):
+                out.append("struct:_immutable")
+            if it["bases"][0]["b"] == "cls" and all(it.get(k) is None for k in ("required", "optional", "addl")):
+                out.append("struct:subclass-restating-nothing")
             for f in it["fields"]:
                 if f.get("const") is not None:
                     out.append("field:constant")
